@@ -1,1 +1,2 @@
+import Driver.Handler
 import Driver.Slice
